@@ -151,6 +151,8 @@ def render(prog: list, variant: int = 0, mode: str = "visit") -> Rendered:
             stmt = {
                 "plain": f"{n} = {value}", "ann": f"{n}: int = {value}", "annonly": f"{n}: int", "classvar": f"{n}: ClassVar[int] = {value}",
                 "multi": f"{n} = {other(n)} = {value}", "attr": f"obj.{n} = {value}", "self": f"self.{n} = {value}", "selfann": f"self.{n}: int = {value}",
+                "selfdeep": f"self.o.{n} = {value}", "selfdeep3": f"self.o.p.{n} = {value}", "selfsub": f"self.{n}[0] = {value}",
+                "tuple": f"{n}, {n}2 = {value}, 0",
             }[x]
             out.extend((ind + stmt).split("\n"))
             info["hdr_end"] = info["last"] = len(out)
